@@ -64,13 +64,21 @@ def _(self, key):
             "stored-or-declared-(or-a-directory-of-a-declared-key)")
 
 
-@contract("liquer.recipes.NewRecipeSpecStore.remove", params=dict(self=RS, key=Str), opaque={"on_removed": NoneT})
+@assumed("liquer.recipes.NewRecipeSpecStore.on_removed", params=dict(self=RS, key=Str))
+def _(self, key):
+    """the change hook: refreshes the recipe status record of the key's directory (status 'recipe' for a declared key without data)"""
+    pass
+
+
+@contract("liquer.recipes.NewRecipeSpecStore.remove", params=dict(self=RS, key=Str))
 def _(self, key):
     requires(not isdir(self.substore, key), "a-file-key")
     modifies(self.substore.data, self.substore.meta)
     ensures(self.substore.data == mapdel(old(self.substore.data), key) and self.substore.meta == mapdel(old(self.substore.meta), key),
             "gone-from-the-sub-store:the-key-falls-back-to-its-declared-state")
     ensures(self._recipes == old(self._recipes), "the-declaration-stays")
+    ensures(log_count("NewRecipeSpecStore.on_removed") == 1 and log_arg("NewRecipeSpecStore.on_removed", "key") == key,
+            "the-status-record-is-refreshed-for-the-key,whether-or-not-it-had-been-materialised")
 
 
 @contract("liquer.recipes.NewRecipeSpecStore.keys", params=dict(self=RS), returns=KeyList)
@@ -81,4 +89,6 @@ def _(self):
 
 
 prop("C08", fucs=["liquer.recipes.NewRecipeSpecStore.get_bytes", "liquer.recipes.NewRecipeSpecStore.contains",
-                  "liquer.recipes.NewRecipeSpecStore.remove", "liquer.recipes.NewRecipeSpecStore.keys"])
+                  "liquer.recipes.NewRecipeSpecStore.remove", "liquer.recipes.NewRecipeSpecStore.keys"],
+     static=[("argfrom", "liquer.recipes.NewRecipeSpecStore.update_recipes",
+              "relative-references-of-a-recipe-are-resolved-against-the-directory's-key-in-the-global-store", "resolve_recipe_definition", 1, "to_root_key")])
